@@ -107,6 +107,11 @@ REVERTS = [
  ('regress_c12_array_assign_order', 'C12', 'ff27779'),
  ('regress_c12_hashmap_assign_order', 'C12', 'c262c84'),
  ('regress_c13_join_marks_finished', 'C13', 'e33520e'),
+ ('regress_c09_header_no_blank_after_colon', 'C09', '8518b51'),
+ ('regress_c09_folded_header_middle_lines', 'C09', '1fb31f8'),
+ ('regress_c09_body_beyond_content_length', 'C09', '4679100'),
+ ('regress_c09_colonless_line_dispatched', 'C09', 'f3ceb63'),
+ ('regress_c13_pfor_int_max', 'C13', 'f243dfb'),
 ]
 
 
